@@ -10,7 +10,9 @@
    split_sync                                             split_word / split_sync
    _get_sync_trace_indices_from_meta                      sync_indices
    _get_analog_sync_trace_indices_from_meta               analog_indices
-   Reader.read_sync_digital / read_sync_analog / read_sync read_sync_digital / analog_volts / read_sync
+   Reader.read_sync_digital / read_sync_analog / read_sync read_sync_digital / read_sync_analog / read_sync
+   np.percentile(., 10, axis=0)                           sort / pct10x / floors10
+   Reader.read(...)[1]                                    reader_read_sync
    utils.fronts / rises / falls (1-D, 2-D either axis)    fronts1 / rises1 / falls1 / fronts2 / rises2 / falls2
 *)
 From Coq Require Import ZArith List Bool Lia.
@@ -126,9 +128,53 @@ Definition read_sync_digital (typ ntr c0 c1 c2 c3 start stop : Z) (raw : list (l
 (* Analog values are handled as exact integers in units of 1/one volt
    (one > 0): sample * gain, gain = int2volt * one (the harness uses ranges for
    which this is an integer, so the float32 products are exact).
-   read_sync:  analog -= percentile (the per-column floor is an input: the
-   model does not compute percentiles);  analog[analog < thr] = 0 ;
-   analog[analog >= thr] = 1 ; np.int8(analog). *)
+
+   read_sync_analog: None (python) when the recording has no analog sync
+   channel, else self.read(nsel=_slice, csel=analog_indices, sync=False): the
+   selected samples of those channels in volts.
+   outer None = exception (index out of range); Some None = returns None. *)
+Definition read_sync_analog (typ ntr c0 c1 c2 c3 start stop gain : Z) (raw : list (list Z))
+  : option (option (list (list Z))) :=
+  match analog_indices typ c0 c1 c2 c3 with
+  | [] => Some None
+  | idx =>
+      match all_some (map (fun r => gather_cols r idx) (slice_rows start stop raw)) with
+      | None => None
+      | Some an => Some (Some (map (map (fun v => v * gain)) an))
+      end
+  end.
+
+(* np.percentile(column, 10), default method 'linear': with s the sorted
+   column and n its length, virtual index (n-1)*0.1, lo = floor, hi = min(lo+1, n-1),
+   gamma = ((n-1) mod 10)/10, result s[lo] + (s[hi]-s[lo])*gamma.
+   Exact arithmetic, scaled by 10 to stay in Z:  pct10x = 10 * percentile. *)
+Fixpoint insert (a : Z) (l : list Z) : list Z :=
+  match l with
+  | [] => [a]
+  | b :: t => if a <=? b then a :: l else b :: insert a t
+  end.
+
+Definition sort (l : list Z) : list Z := fold_right insert [] l.
+
+Definition pct_lo (n : Z) : Z := (n - 1) / 10.
+Definition pct_g (n : Z) : Z := (n - 1) mod 10.
+Definition pct_hi (n : Z) : Z := Z.min (pct_lo n + 1) (n - 1).
+
+Definition pct10x (col : list Z) : Z :=
+  let s := sort col in
+  let n := Z.of_nat (length col) in
+  let a := nth (Z.to_nat (pct_lo n)) s 0 in
+  let b := nth (Z.to_nat (pct_hi n)) s 0 in
+  10 * a + (b - a) * pct_g n.
+
+Definition column (k : nat) (m : list (list Z)) : list Z := map (fun r => nth k r 0) m.
+
+(* np.percentile(analog, 10, axis=0): one floor per analog column, each from
+   that column alone *)
+Definition floors10 (an : list (list Z)) (ncol : nat) : list Z :=
+  map (fun k => pct10x (column k an)) (seq 0 ncol).
+
+(* analog[analog < thr] = 0 ; analog[analog >= thr] = 1 ; np.int8(analog) *)
 Definition digitise (one thr fl v : Z) : Z :=
   let a0 := v - fl in
   let a1 := if a0 <? thr then 0 else a0 in
@@ -153,24 +199,44 @@ Fixpoint hconcat (a b : list (list Z)) : option (list (list Z)) :=
   | _, _ => None
   end.
 
+(* the floors read_sync subtracts, in units of 1/(10*one) volt *)
+Definition floors_of (use_floor : bool) (an : list (list Z)) (ncol : nat) : option (list Z) :=
+  if use_floor then Some (floors10 an ncol) else None.
+
+(* read_sync(_slice, threshold, floor_percentile):
+     digital = self.read_sync_digital(_slice); analog = self.read_sync_analog(_slice)
+     if analog is not None and floor_percentile: analog -= np.percentile(analog, 10, axis=0)
+     if analog is None: return digital
+     analog[analog < threshold] = 0; analog[analog >= threshold] = 1
+     return np.concatenate((digital, np.int8(analog)), axis=1)
+   use_floor = truthiness of floor_percentile (its value is not used by the code).
+   The thresholding runs in units of 1/(10*one) volt so that the interpolated
+   floor stays an integer: volts * 10 against 10 * thr. *)
 Definition read_sync (typ ntr c0 c1 c2 c3 start stop one thr gain : Z)
-  (floors : option (list Z)) (raw : list (list Z)) : option (list (list Z)) :=
+  (use_floor : bool) (raw : list (list Z)) : option (list (list Z)) :=
   match read_sync_digital typ ntr c0 c1 c2 c3 start stop raw with
   | None => None
   | Some digital =>
-      match analog_indices typ c0 c1 c2 c3 with
-      | [] => Some digital                       (* read_sync_analog returns None *)
-      | idx =>
-          match all_some (map (fun r => gather_cols r idx) (slice_rows start stop raw)) with
-          | None => None
-          | Some an =>
-              match floors, an with
-              | Some _, [] => None      (* np.percentile of an empty column: IndexError *)
-              | _, _ => hconcat digital (map (digitise_row one thr gain floors) an)
-              end
+      match read_sync_analog typ ntr c0 c1 c2 c3 start stop gain raw with
+      | None => None
+      | Some None => Some digital
+      | Some (Some an) =>
+          match use_floor, an with
+          | true, [] => None        (* np.percentile of an empty column: IndexError *)
+          | _, _ =>
+              let floors := floors_of use_floor an (length (analog_indices typ c0 c1 c2 c3)) in
+              hconcat digital (map (digitise_row (10 * one) (10 * thr) 10 floors) an)
           end
       end
   end.
+
+(* Reader.read(nsel, csel, sync=True) returns (darray, self.read_sync(nsel)):
+   the sync part is read_sync with its default arguments (threshold 1.2 —
+   passed as thr_default in model units —, floor on).  The voltage part is
+   property C01's subject. *)
+Definition reader_read_sync (typ ntr c0 c1 c2 c3 start stop one thr_default gain : Z)
+  (raw : list (list Z)) : option (list (list Z)) :=
+  read_sync typ ntr c0 c1 c2 c3 start stop one thr_default gain true raw.
 
 (* ------------------------------------------------------------------ *)
 (* fronts / rises / falls                                              *)
@@ -214,6 +280,29 @@ Definition rises1 (step : Z) (analog : bool) (x : list Z) : list Z :=
 (* falls(x, step, analog) = rises(-x, step=-step, analog=analog) *)
 Definition falls1 (step : Z) (analog : bool) (x : list Z) : list Z :=
   rises1 (- step) analog (map Z.opp x).
+
+(* Containers without a sign (kind 1 = bool, kind 2 = uint8), 1-D:
+   np.diff on bool is element-wise `!=`; on uint8 it wraps modulo 256;
+   np.abs is the identity on both; sign = d[ind] is True / the wrapped value;
+   falls negates the input: TypeError on bool (None), wraps on uint8. *)
+Fixpoint diff_c (kind : Z) (l : list Z) : list Z :=
+  match l with
+  | a :: (b :: _) as t =>
+      (if kind =? 1 then (if a =? b then 0 else 1) else (b - a) mod 256) :: diff_c kind t
+  | _ => []
+  end.
+
+Definition fronts1_c (kind step : Z) (x : list Z) : list Z * list Z :=
+  let d := diff_c kind x in
+  let ind := where_from 0 (fun v => step <=? v) d in
+  (map (fun i => i + 1) ind, gather d ind).
+
+Definition rises1_c (kind step : Z) (x : list Z) : list Z :=
+  map (fun i => i + 1) (where_from 0 (fun v => step <=? v) (diff_c kind x)).
+
+Definition falls1_c (kind step : Z) (x : list Z) : option (list Z) :=
+  if kind =? 1 then None
+  else Some (rises1_c kind (- step) (map (fun v => (- v) mod 256) x)).
 
 (* 2-D arrays: list of rows.  np.diff along axis 1 = diff of every row;
    along axis 0 = difference of consecutive rows. *)
@@ -281,8 +370,6 @@ Definition level (init : Z) (evs : list Z) (t : Z) : Z := (init + count_le t evs
 (* lines : 16 pairs (initial level, toggle times); ns samples *)
 Definition render (ns : nat) (lines : list (Z * list Z)) : list (list Z) :=
   map (fun t => map (fun l => level (fst l) (snd l) t) lines) (zrange ns).
-
-Definition column (k : nat) (m : list (list Z)) : list Z := map (fun r => nth k r 0) m.
 
 (* write the trains, read them back, detect fronts on line k *)
 Definition ttl_roundtrip (ns : nat) (lines : list (Z * list Z)) (k : nat) : list Z * list Z :=
